@@ -339,26 +339,8 @@ func (p *pkgInfo) switchArms(sw *ast.SwitchStmt, strKeys bool) (arms []swArm, de
 	return
 }
 
-func emitArmTable(w *bytes.Buffer, doc, ind, fn, argName, argTy string, arms []swArm, def string, extra []string) {
-	set := map[string]bool{}
-	for _, a := range arms {
-		set[a.outcome] = true
-	}
-	set[def] = true
-	for _, e := range extra {
-		set[e] = true
-	}
-	var names []string
-	for n := range set {
-		names = append(names, n)
-	}
-	sort.Strings(names)
-	fmt.Fprintf(w, "inductive %s where\n", ind)
-	for _, n := range names {
-		fmt.Fprintf(w, "  | %s\n", leanName(n))
-	}
-	fmt.Fprintf(w, "  deriving DecidableEq, Repr\n")
-	fmt.Fprintf(w, "/-- %s -/\ndef %s (%s : %s) : %s :=\n", doc, fn, argName, argTy, ind)
+func emitArmTable(w *bytes.Buffer, doc, fn, argName, argTy string, arms []swArm, def string) {
+	fmt.Fprintf(w, "/-- %s -/\ndef %s (%s : %s) : Ctor :=\n", doc, fn, argName, argTy)
 	for _, a := range arms {
 		conds := make([]string, len(a.keys))
 		for i, k := range a.keys {
@@ -498,9 +480,6 @@ func rtmpPacketFacts(p *pkgInfo, w *bytes.Buffer) error {
 		conds = []string{"False"}
 	}
 	fmt.Fprintf(w, "/-- Go `DecodeMessage`: message types for which the payload is advanced by one byte (`p = p[1:]`) before decoding. -/\ndef decodeMessageSkipsOneByte (t : Nat) : Bool := decide (%s)\n", strings.Join(conds, " ∨ "))
-	emitArmTable(w, "Go `DecodeMessage`: the switch on `m.MessageType` that creates the packet, arm by arm in source order (`NewT` = `pkt = NewT()`, `parseAMFObject` = by command name, `rejected` = `return nil, err`).",
-		"DecodeArm", "decodeMessageArm", "t", "Nat", ctorArms, ctorDef, []string{"rejected"})
-
 	// D. parseAMFObject: outer switch on the command name, inner switch on the request name
 	pa := p.funcDecl("Protocol", "parseAMFObject")
 	if pa == nil {
@@ -517,8 +496,6 @@ func rtmpPacketFacts(p *pkgInfo, w *bytes.Buffer) error {
 	if od == "" {
 		return fmt.Errorf("parseAMFObject: switch on commandName without default")
 	}
-	emitArmTable(w, "Go `parseAMFObject`: switch on the command name (`response` = the arm that looks the transaction id up and switches on the request name).",
-		"CommandArm", "parseCommandArm", "name", "List UInt8", oa, od, nil)
 	ia, id, err := p.switchArms(inner[0], true)
 	if err != nil {
 		return err
@@ -526,8 +503,65 @@ func rtmpPacketFacts(p *pkgInfo, w *bytes.Buffer) error {
 	if id == "" {
 		return fmt.Errorf("parseAMFObject: switch on requestName without default")
 	}
+
+	// the outcomes of the switch arms: every packet constructor of the package (a function `New…` returning a pointer
+	// to a packet type), plus the three non-constructor outcomes, plus whatever else an arm does
+	ctorType := map[string]string{}
+	for _, f := range p.files {
+		for _, d := range f.Decls {
+			fd, ok := d.(*ast.FuncDecl)
+			if !ok || fd.Recv != nil || !strings.HasPrefix(fd.Name.Name, "New") || fd.Type.Results == nil || len(fd.Type.Results.List) != 1 {
+				continue
+			}
+			st, ok := fd.Type.Results.List[0].Type.(*ast.StarExpr)
+			if !ok {
+				continue
+			}
+			if id, ok := st.X.(*ast.Ident); ok {
+				for _, n := range packetTypes {
+					if n == id.Name {
+						ctorType[fd.Name.Name] = n
+					}
+				}
+			}
+		}
+	}
+	for _, o := range []string{"response", "parseAMFObject", "rejected"} {
+		ctorType[o] = ""
+	}
+	for _, arms := range [][]swArm{ctorArms, oa, ia} {
+		for _, a := range arms {
+			if _, ok := ctorType[a.outcome]; !ok {
+				ctorType[a.outcome] = ""
+			}
+		}
+	}
+	for _, d := range []string{ctorDef, od, id} {
+		if _, ok := ctorType[d]; !ok {
+			ctorType[d] = ""
+		}
+	}
+	var ctors []string
+	for n := range ctorType {
+		ctors = append(ctors, n)
+	}
+	sort.Strings(ctors)
+	fmt.Fprintf(w, "/-- What a switch arm of `DecodeMessage` / `parseAMFObject` does: call a packet constructor `NewT…`,\n`parseAMFObject` (choose by command name), `response` (look the transaction id up, then choose by the request's\nname) or `rejected` (`return nil, err`). All packet constructors of the package are listed. -/\ninductive Ctor where\n")
+	for _, n := range ctors {
+		fmt.Fprintf(w, "  | %s\n", leanName(n))
+	}
+	fmt.Fprintf(w, "  deriving DecidableEq, Repr\n")
+	fmt.Fprintf(w, "/-- The packet type a constructor returns (\"\" for the non-constructor outcomes). -/\ndef ctorGoType : Ctor → String\n")
+	for _, n := range ctors {
+		fmt.Fprintf(w, "  | .%s => %s\n", leanName(n), leanStr(ctorType[n]))
+	}
+	emitArmTable(w, "Go `DecodeMessage`: the switch on `m.MessageType` that creates the packet, arm by arm in source order (`NewT` = `pkt = NewT()`, `parseAMFObject` = by command name, `rejected` = `return nil, err`).",
+		"decodeMessageArm", "t", "Nat", ctorArms, ctorDef)
+
+	emitArmTable(w, "Go `parseAMFObject`: switch on the command name (`response` = the arm that looks the transaction id up and switches on the request name).",
+		"parseCommandArm", "name", "List UInt8", oa, od)
 	emitArmTable(w, "Go `parseAMFObject`: switch on the name of the request the transaction id belongs to.",
-		"ResponseArm", "parseResponseArm", "name", "List UInt8", ia, id, []string{"rejected"})
+		"parseResponseArm", "name", "List UInt8", ia, id)
 
 	// E. onPacketWriten: the packet types whose (tid, name) is registered, and the registering condition
 	opw := p.funcDecl("Protocol", "onPacketWriten")
